@@ -642,7 +642,7 @@ Definition step (o : op) : M status :=
       x <- var_ptr mv ;;
       match x with
       | None => ret Skip
-      | Some (_, None) => t <- h_new KMem None ;; store v t ;;; ret Done    (* returns memory() *)
+      | Some (_, None) => ret Err                       (* assertInitialized *)
       | Some (_, Some m) =>
           b <- rd obuf m ;;
           match b with
